@@ -270,7 +270,7 @@ pub struct HCase {
 
 fn pool_string() -> BoxedStrategy<String> {
     proptest::sample::select(vec![
-        "a.js", "b.js", "", "/abs/x.js", "http://h/y.js", "https://h/z.js", "src/lib/c.ts", "r", "r/", "/", "webpack:///", "ü.js", "q\"x",
+        "a.js", "b.js", "", "/abs/x.js", "http://h/y.js", "https://h/z.js", "src/lib/c.ts", "r", "r/", "/", "webpack:///", "ü.js", "q\"x", "r/a.js", "webpack:///b.js", "src/lib", "https.js",
     ])
     .prop_map(str::to_string)
     .boxed()
